@@ -1,4 +1,5 @@
 import NfpmModel.Spec.ScriptSpec
+import NfpmModel.Generated.G2Scripts
 /-
   C09  Maintainer scripts land verbatim in the slot their lifecycle event runs.
 
@@ -169,5 +170,9 @@ example : scriptSlots .deb [(b!"Scripts.PreInstall", b!"#!/bin/sh\n"), (b!"Deb.S
     = [(b!"preinst", b!"#!/bin/sh\n"), (b!"templates", [0, 255, 10])] := by decide
 example : scriptSlots .rpm [(b!"Scripts.PreInstall", [])] = [] := by decide
 example : scriptSlots .rpm [(b!"Scripts.PostRemove", [97, 0, 98])] = [(b!"1026", [97])] := by decide
+
+/-- the translator regenerated, on this run and from the working tree, every table this property is tied through
+    (when an extraction fails the reviewed table stands in so that the model still compiles, and this stops checking) -/
+theorem translator_tables_regenerated : Generated.extracted_G2Scripts = true := by decide
 
 end Nfpm.Props.C09
